@@ -243,11 +243,60 @@ def count_guard(vp):
     return None
 
 
+def check_returned(ctx, R):
+    """validate_prepare_data hands back (merged data, labels, design matrix) - the labels being the very array the design matrix was built from (callers such as
+    setup_mcmc rebuild their own matrix from them: a re-ordered copy gives the MCMC model other offset rows than the sampler)"""
+    fn = ctx.prog.func("thejoker.data_helpers", "validate_prepare_data", R)
+    flow = A.Flow(fn)
+    n = 0
+    for v, s in flow.returns:
+        raw = s.value
+        if not (isinstance(raw, ast.Tuple) and len(raw.elts) == 3):
+            continue
+        n += 1
+        tm = raw.elts[2]
+        d_ = None
+        if isinstance(tm, ast.Name):
+            d_ = A.raw_reaching_def_stmt(tm.id, s)
+            tm = d_.value if isinstance(d_, ast.Assign) else A.inline_temporaries(tm, s, fn)
+        if not (isinstance(tm, ast.Call) and (A.call_name(tm) or "").split(".")[-1] == "get_trend_design_matrix" and len(tm.args) >= 2):
+            # single-source early return: (data, None, matrix of that data)
+            continue
+        if isinstance(tm.args[1], ast.Constant) and tm.args[1].value is None:
+            continue   # single source: no labels needed for the matrix (the helper makes them all zero, like the returned ones)
+
+        def same(a, b):
+            # the same name, not re-bound between the matrix construction and the return
+            if isinstance(a, ast.Name) and isinstance(b, ast.Name) and a.id == b.id:
+                return d_ is None or A.raw_reaching_def_stmt(a.id, s) is A.raw_reaching_def_stmt(a.id, d_)
+            return canon(a) == canon(b)
+        ctx.check(R, s, "returned labels are the labels the design matrix was built from", same(tm.args[1], raw.elts[1]),
+                  "returns `%s` as labels, but the design matrix was built from `%s`" % (A.unparse(raw.elts[1])[:50], A.unparse(tm.args[1])[:50]), key="ret-ids")
+        ctx.check(R, s, "returned data is the data the design matrix was built from", same(tm.args[0], raw.elts[0]),
+                  "returns `%s`, matrix built from `%s`" % (A.unparse(raw.elts[0])[:40], A.unparse(tm.args[0])[:40]), key="ret-data", nontrivial=False)
+    ctx.check(R, fn, "validate_prepare_data returns (data, labels, design matrix)", n >= 1, "no 3-tuple return found", key="ret-shape", nontrivial=False)
+
+
 def check_col(ctx):
+    check_returned(ctx, "C08-COL")
     R = "C08-COL"
     ctx.rule(R, "get_constant_term_design_matrix: column 0 is all ones; column j+1 is the indicator (boolean mask ids == id) of the (j+1)-th sorted unique id "
                 "(enumerate(unique[1:]) paired with j+1); the matrix has one column per unique id; the trend matrix stacks it before vander(t - t_ref, increasing)[:, 1:]; "
                 "the count check len(unique(ids)) - 1 != n_offsets -> raise dominates the merge; offset priors keep the caller's order.")
+    # the helper is built from what validate_prepare_data returned, untouched: no write into the merged data, the labels or the design matrix in between
+    mk = ctx.prog.func("thejoker.thejoker", "TheJoker._make_joker_helper", R)
+    ws = A.storage_writes(mk, lambda e: isinstance(e, ast.Call) and (A.call_name(e) or "").split(".")[-1] == "validate_prepare_data")
+    ctx.check(R, ws[0][0] if ws else mk, "_make_joker_helper passes the design matrix on as built", not ws,
+              (ws[0][1] if ws else "").replace("the input", "what validate_prepare_data returned") + ": the kernel's columns are no longer the indicator / trend columns decided here", key="helper-writes")
+    hc = [c for c in A.calls_in(mk) if (A.call_name(c) or "").split(".")[-1] == "CJokerHelper"]
+    vp = [c for c in A.calls_in(mk) if (A.call_name(c) or "").split(".")[-1] == "validate_prepare_data"]
+    okh = len(hc) == 1 and len(vp) == 1 and len(hc[0].args) == 3
+    if okh:
+        mf = A.Flow(mk)
+        st_ = A.enclosing_stmt(hc[0])
+        a0, a2 = mf.resolve(hc[0].args[0], at=st_), mf.resolve(hc[0].args[2], at=st_)
+        okh = all(canon(vp[0]) in canon(x) and "@elem" not in canon(x) or canon(vp[0]) in canon(x) for x in (a0, a2))
+    ctx.check(R, mk, "CJokerHelper(data, prior, M) receives the merged data and design matrix of validate_prepare_data", okh, "the helper is not built from validate_prepare_data's outputs", key="helper-args", nontrivial=False)
     fn = ctx.prog.func(LH, "get_constant_term_design_matrix", R)
     flow = A.Flow(fn)
     # the returned matrix and its allocation
